@@ -96,6 +96,14 @@ func loadWorld(pkgPattern string, harnessFiles []string) (*World, *ssa.Package, 
 							w.modelFn[tgt] = fn
 						}
 					}
+					if i := strings.Index(c.Text, "gosmt:model-opt "); i >= 0 {
+						parts := strings.Fields(c.Text[i+len("gosmt:model-opt "):])
+						if len(parts) == 2 && optModels[parts[0]] {
+							if fn := rtSSA.Func(fd.Name.Name); fn != nil {
+								w.modelFn[parts[1]] = fn
+							}
+						}
+					}
 				}
 			}
 		}
@@ -103,8 +111,9 @@ func loadWorld(pkgPattern string, harnessFiles []string) (*World, *ssa.Package, 
 	return w, target, nil
 }
 
-// modelTargets maps zz_verifrt.Model_* function names to the function keys they replace.
-var modelTargets = map[string]string{}
+// optModels is the set of optional model tags ("gosmt:model-opt <tag> <target>") enabled for the
+// package group being loaded (GroupSpec.Models).
+var optModels = map[string]bool{}
 
 type EntryCfg struct {
 	Name     string `json:"name"`
@@ -132,8 +141,14 @@ func cmdRun(args []string) int {
 	solver := fs.String("solver", "z3", "solver")
 	maxPaths := fs.Int("maxpaths", 0, "max paths")
 	preempt := fs.Int("preempt", 0, "preemption bound")
+	models := fs.String("models", "", "comma-separated optional model tags")
 	fs.Parse(args)
 	t0 := time.Now()
+	for _, m := range strings.Split(*models, ",") {
+		if m != "" {
+			optModels[m] = true
+		}
+	}
 	w, tp, err := loadWorld(*pkg, strings.Split(*harness, ","))
 	if err != nil {
 		fmt.Fprintln(os.Stderr, err)
